@@ -16,6 +16,10 @@ CPython decides what is free and what is bound; nothing here analyses scopes.
 # ---------------------------------------------------------------- expression binder forms
 # (label, expression, free names, privately bound names)
 EXPRS = [
+    # free names whose supplied VALUE is None / false: present is present (strict_undefined reads them by subscript)
+    ("free.none-valued-name", "(NN19, z)", ["NN19", "z"], []),
+    ("free.none-valued-name-called-like-a-builtin", "(format, z)", ["format", "z"], []),
+    ("free.false-valued-names", "(F19, E19, z)", ["F19", "E19", "z"], []),
     ("comp.list", "[i for i in R]", ["R"], ["i"]),
     ("comp.set", "sorted({i for i in R})", ["R"], ["i"]),
     ("comp.dict", "{i: z for i in R}", ["R", "z"], ["i"]),
@@ -188,6 +192,10 @@ def free_values(env):
         "A19": int,
         "B19": B19,
         "D19": (lambda fn: fn),
+        "NN19": None,
+        "format": None,
+        "F19": 0,
+        "E19": "",
     }
 
 
